@@ -13,7 +13,11 @@ TECHNIQUE = ("bounded exhaustive enumeration on each of the six hosts: every cod
 TEXT = ("Each native code object of the bounded program space is converted to the portable type and back on every host; "
         "all co_* attributes (incl. the raw line table, the exception table, the qualified name and the derived co_lines() "
         "and co_positions()) must equal the original's, the portable class must be the one for the host's version, and "
-        "every replace() over every field must change exactly that field of a copy while the original is untouched.")
+        "every replace() over every field must change exactly that field of a copy while the original is untouched. "
+        "Besides the compiled programs, native objects carrying boundary values in each field (counts 255/256/300, "
+        "stack sizes and first lines around 2**15/2**16/2**31, every flag bit, empty/long/non-ASCII names, 0..300 names "
+        "and constants, long code and line tables) go through the same conversions: one field at a time in the quick "
+        "tier, every pair of fields in the thorough tier.")
 NOTE = ("Trusted: the host's own code-object attribute access and equality. Only hosts 3.8-3.13 (those able to import the "
         "package); programs outside grammar G are not covered.")
 RULE = ("case = one program compiled on one host; every nested code object is converted and every field replaced; distinct "
@@ -29,7 +33,8 @@ def hosts(tier):
 
 
 def bounds(tier):
-    return {"program_statements_k": 1 if tier == "quick" else 2, "replace_sequences": 2}
+    return {"program_statements_k": 1 if tier == "quick" else 2, "replace_sequences": 2,
+            "field_boundary_deviations": 1 if tier == "quick" else 2}
 
 
 def prepare(tier):
@@ -45,6 +50,54 @@ def cases(plan, tier, shard, nshards, host):
         n += 1
         if n % nshards == shard:
             yield {"id": pid, "src": src}
+    # boundary values of every field, one at a time (quick) and in pairs (thorough), on a native object of this host
+    menu = field_menu()
+    specs = [[(f, i)] for f in sorted(menu) for i in range(len(menu[f]))]
+    if tier != "quick":
+        fl = sorted(menu)
+        specs += [[(f1, i), (f2, j)] for a, f1 in enumerate(fl) for f2 in fl[a + 1:] for i in range(len(menu[f1])) for j in range(len(menu[f2]))]
+    for sp in specs:
+        n += 1
+        if n % nshards == shard:
+            yield {"id": "fields:" + ",".join("%s#%d" % fi for fi in sp), "spec": sp}
+
+
+def _base_code():
+    ns = {}
+    exec(compile("def base(a, b=1, *c, **d):\n    e = a + b\n    return e, c, d, len\n", "<fields>", "exec"), ns)
+    return ns["base"].__code__
+
+
+def field_menu():
+    """boundary values per field (beyond what a compiler emits for the small programs of G).  Argument counts come with
+    matching co_varnames so that the host accepts the object."""
+    host = sys.version_info[:2]
+    names = lambda n: tuple("v%d" % i for i in range(n))
+    m = {
+        "args": [{"co_argcount": a, "co_kwonlyargcount": k, "co_varnames": names(a + k + 2), "co_nlocals": a + k + 2}
+                 for a, k in ((0, 0), (1, 0), (255, 0), (256, 0), (300, 0), (0, 255), (0, 256), (128, 128), (255, 1), (254, 1), (200, 200))],
+        "co_stacksize": [{"co_stacksize": v} for v in (0, 1, 255, 256, 32767, 32768, 65535, 65536, 2 ** 20)],
+        "co_firstlineno": [{"co_firstlineno": v} for v in (0, 1, 127, 128, 255, 256, 32767, 32768, 65535, 65536, 2 ** 31 - 1)],
+        "co_flags": [{"co_flags": 1 << b} for b in range(0, 30)] + [{"co_flags": 0}, {"co_flags": 0x3FFFFFFF}],
+        "co_name": [{"co_name": v} for v in ("", "x" * 300, "\xe9", "\u20ac\U0001F600", "a b", "<lambda>")],
+        "co_filename": [{"co_filename": v} for v in ("", "d/" * 200 + "f.py", "\xe9.py", "\U0001F600.py")],
+        "co_names": [{"co_names": names(n)} for n in (0, 1, 255, 256, 300)],
+        "co_consts": [{"co_consts": tuple(range(n))} for n in (0, 1, 255, 256, 300)],
+        "co_code": [{"co_code": bytes(bytearray([9, 0] * n))} for n in (1, 127, 128, 255, 256, 40000)],
+        "co_freevars": [{"co_freevars": names(n), "co_cellvars": ()} for n in (1, 255, 256)] + [{"co_cellvars": names(n)} for n in (1, 255, 256)],
+    }
+    if host >= (3, 8):
+        m["args"] += [{"co_argcount": a, "co_posonlyargcount": p_, "co_kwonlyargcount": 0, "co_varnames": names(a + 2), "co_nlocals": a + 2}
+                      for a, p_ in ((1, 1), (255, 255), (256, 256), (300, 1), (300, 300))]
+    if host >= (3, 11):
+        m["co_qualname"] = [{"co_qualname": v} for v in ("", "A." * 150 + "f", "\xe9.<locals>.f")]
+        m["co_exceptiontable"] = [{"co_exceptiontable": v} for v in (b"", b"\x80\x01\x02\x03", b"\xc1\x00\x82\x04\x05" * 60)]
+        m["co_linetable"] = [{"co_linetable": v} for v in (b"", b"\x80\x00", b"\xf0\x03\x01" * 100)]
+    elif host >= (3, 10):
+        m["co_linetable"] = [{"co_linetable": v} for v in (b"", b"\x02\x01", b"\x00\x7f\x00\x7f\x02\x01", b"\xfe\x00" * 50 + b"\x02\x81")]
+    else:
+        m["co_lnotab"] = [{"co_lnotab": v} for v in (b"", b"\x02\x01", b"\x00\x7f\x00\x7f\x02\x01", b"\xff\x00" * 50 + b"\x02\x81")]
+    return m
 
 
 def case_key(c):
@@ -52,14 +105,23 @@ def case_key(c):
 
 
 def describe(c):
-    return {"program": c["id"], "host": list(sys.version_info[:2])}
+    return {"program": c["id"], "host": list(sys.version_info[:2]), "spec": c.get("spec")}
 
 
 def canary_cases(plan, tier, host):
     yield {"id": "canary", "src": "def f(a, b=1):\n    return [a for _ in range(b)]\n"}
 
 
+class _Holder(object):
+    """a single synthetic code object (its constants are plain values)"""
+
+    def __init__(self, co):
+        self.co = co
+
+
 def walk(co):
+    if isinstance(co, _Holder):
+        return [co.co]
     out = [co]
     for c in co.co_consts:
         if isinstance(c, types.CodeType):
@@ -103,11 +165,25 @@ def run_case(case, ctx):
     warnings.simplefilter("ignore")
     host = sys.version_info[:2]
     htag = "%d.%d" % host
-    try:
-        top = compile(case["src"], "<%s>" % case["id"], "exec")
-    except (SyntaxError, ValueError):
-        ctx.count("rejected_by_host_compiler")
-        return
+    if "spec" in case:
+        menu = field_menu()
+        kw = {}
+        for f, i in case["spec"]:
+            kw.update(menu[f][i])
+        try:
+            top = _base_code().replace(**kw)
+        except (ValueError, OverflowError, SystemError, TypeError, MemoryError) as e:
+            ctx.count("rejected_by_host_code_constructor")
+            return
+        ctx.count("field_boundary_objects")
+        case = dict(case, src=None)
+        top = _Holder(top)
+    else:
+        try:
+            top = compile(case["src"], "<%s>" % case["id"], "exec")
+        except (SyntaxError, ValueError):
+            ctx.count("rejected_by_host_compiler")
+            return
     want_cls = Code38 if host < (3, 10) else (Code310 if host == (3, 10) else Code311)
     canary = case["id"] == "canary"
     for co in walk(top):
